@@ -295,9 +295,11 @@ def t_in_nested(t, depth_of):
     return t in depth_of
 
 
-def threaded_serving_run(ctx, seed, policy, nthreads, nreq, p_switch):
+def threaded_serving_run(ctx, seed, policy, nthreads, nreq, p_switch, client_bg=False):
     """the serving side answers from several threads at once (what serve_threaded does): under the controlled scheduler, with
-    pre-emption inside _send and _dispatch_request, every request must still get exactly one response"""
+    pre-emption inside _send and _dispatch_request, every request must still get exactly one response.
+    client_bg: a second thread serves the REQUESTER's connection as well (what BgServingThread does), with pre-emption inside
+    _async_request: every response must still reach the request with its number"""
     import rpyc
     from rpyc.core.channel import Channel
     from rpyc.core import consts
@@ -308,10 +310,13 @@ def threaded_serving_run(ctx, seed, policy, nthreads, nreq, p_switch):
     sched = vsched.Sched(seed=seed, policy=policy, p_switch=p_switch, max_steps=120000)
     net = vnet.Net(waiter=vsched.SchedWaiter(sched))
     b = Svc()._connect(Channel(net.b), {"sync_request_timeout": None})
-    a = rpyc.VoidService()._connect(Channel(net.a), {"sync_request_timeout": None})
+    # with a second thread on the requester's side every wait is bounded in VIRTUAL time: a waiter that is woken late
+    # (C14's subject, a listed finding there) then still collects its result and the pairing verdict stays meaningful
+    a = rpyc.VoidService()._connect(Channel(net.a), {"sync_request_timeout": 30 if client_bg else None})
     vsched.simulate_connection(a, sched, "A")
     vsched.simulate_connection(b, sched, "B")
     results = {}
+    arbox = []
     state = dict(done=False)
 
     teardown_exc = []
@@ -335,17 +340,43 @@ def threaded_serving_run(ctx, seed, policy, nthreads, nreq, p_switch):
         try:
             root = a.root
             work = rpyc.async_(root.work)
+            state["setup"] = True          # from here on only asynchronous requests with plain results are in flight
             ars = [(i, work("m%d" % i, "value")) for i in range(nreq)]
+            arbox.extend(ars)
             for i, ar in ars:
-                results[i] = ar.value
+                if client_bg:
+                    # bounded wait in virtual time: a waiter that is woken late (C14's subject) still gets its result here
+                    ar.set_expiry(30)
+                try:
+                    results[i] = ar.value
+                except rpyc.AsyncResultTimeout:
+                    results[i] = ("expired although ready" if ar._is_ready else "expired: no response was delivered to this request",)
             del ars, work, root
         finally:
             state["done"] = True
             a.close()
-    codes = sched.instrument([Connection._send.__code__, Connection._dispatch_request.__code__])
+    def client_bg_thread():
+        # joins once the requester holds its proxies: synchronous requests issued while two threads serve one connection can
+        # expire although answered (the late wake-up that C14 decides and lists); the asynchronous ones below cannot
+        sched.block(lambda: state.get("setup") or state["done"], None, ("wait-setup",))
+        try:
+            while not state["done"] and not a.closed:
+                a.serve(0.5)
+        except EOFError:
+            pass
+        except Exception as e:
+            if state["done"] or a.closed:
+                teardown_exc.append(type(e).__name__)
+            else:
+                raise
+    codes = sched.instrument([Connection._send.__code__, Connection._dispatch_request.__code__] +
+                             ([Connection._async_request.__code__, Connection._seq_request_callback.__code__] if client_bg else []))
     try:
         with vsched.patched_time(sched, spawn=False):
             sched.spawn(client, name="client")
+            if client_bg:
+                sched.spawn(client_bg_thread, name="client-bg")
+                ctx.count("threaded_serving_runs_with_second_thread_on_requester_side")
             for k in range(nthreads):
                 sched.spawn(server, name="srv%d" % k)
             ok = sched.run(watchdog=40)
@@ -355,7 +386,7 @@ def threaded_serving_run(ctx, seed, policy, nthreads, nreq, p_switch):
     ctx.count("threaded_serving_runs")
     ctx.count("threaded_serving_teardown_exceptions", len(teardown_exc))
     ctx.count("threaded_serving_preemptions", sched.preemptions)
-    wit = dict(mode="threaded-serving", seed=list(seed) if isinstance(seed, tuple) else seed, policy=policy, nthreads=nthreads, nreq=nreq)
+    wit = dict(mode="threaded-serving", seed=list(seed) if isinstance(seed, tuple) else seed, policy=policy, nthreads=nthreads, nreq=nreq, client_bg=client_bg)
     if not ok:
         ctx.inconclusive("wall-clock watchdog in threaded-serving run")
         return
@@ -365,6 +396,18 @@ def threaded_serving_run(ctx, seed, policy, nthreads, nreq, p_switch):
     for m in resps:
         if m["kind"] in (rc.MSG_REPLY, rc.MSG_EXCEPTION):
             answered[m["seq"]] = answered.get(m["seq"], 0) + 1
+    nrequests = sum(1 for m in reqs if m["kind"] == rc.MSG_REQUEST and m.get("handler") == rc.HANDLERS["CALL"])
+    if (sched.deadlock or sched.aborting) and not b._send_queue and nrequests and all(
+            answered.get(m["seq"], 0) == 1 for m in reqs if m["kind"] == rc.MSG_REQUEST and m.get("handler") == rc.HANDLERS["CALL"]):
+        missing = [i for i, ar in arbox if not ar._is_ready]
+        del arbox[:]
+        if not missing:
+            ctx.count("threaded_serving_runs_ending_in_a_late_wake_up_only")      # C14's subject, not a pairing matter
+            return
+        ctx.violation("C08/threaded-serving/response-delivered-to-nobody", "every request was answered once on the wire, yet the requester still waits "
+                      "for %r: a response was not delivered to the request with its number (%s)" % (
+                          missing, sched.deadlock or sched.abort_reason), wit)
+        return
     if sched.deadlock:
         stranded = len(b._send_queue)
         ctx.violation("C08/threaded-serving/request-never-answered", "requester waits forever: %d response(s) stranded in the serving side's send queue; "
@@ -397,8 +440,8 @@ def threaded_serving_run(ctx, seed, policy, nthreads, nreq, p_switch):
 def run(ctx):
     rng = ctx.rng
     for i in range(ctx.budget(400, 60000)):
-        threaded_serving_run(ctx, (ctx.seed, ctx.shard[0], i), "random" if i % 3 else "pct", rng.choice([2, 3]), rng.choice([2, 3, 5]),
-                             rng.choice([0.1, 0.3, 0.6]))
+        threaded_serving_run(ctx, (ctx.seed, ctx.shard[0], i), "random" if i % 3 else "pct", rng.choice([2, 3]) if i % 4 else 1, rng.choice([2, 3, 5]),
+                             rng.choice([0.1, 0.3, 0.6]), client_bg=(i % 4 == 0 or i % 7 == 0))
         if ctx.enough():
             return
     for i in range(ctx.budget(250, 30000)):
